@@ -83,6 +83,27 @@ def wrapper_rules(prog, rep, rule="WRAP", parts=("state", "reads", "reaches", "a
                     continue
                 skipped = g.exit in g.reach_avoiding([g.entry], avoid=frozenset(calls), include_start=True, skip_exc=True)
                 w = g.witness(g.entry, g.exit, avoid=frozenset(calls)) if skipped else None
+                # ... and by exactly one write: the wrapper does not perform further writes of its own
+                SW = ("insert_one", "insert_many", "replace", "replace_last", "delete", "create_bucket", "update_bucket", "delete_bucket")
+                # methods of the class that write (directly, or through other methods of the class)
+                writers = set(WRITES[cname])
+                grew = True
+                while grew:
+                    grew = False
+                    for mn, mf in ci.methods.items():
+                        if mn in writers:
+                            continue
+                        if any(isinstance(c.func, ast.Attribute) and ((norm(c.func.value) in STORAGE and c.func.attr in SW) or (norm(c.func.value) == "self" and c.func.attr in writers)) for c in prog.all_calls(mf)):
+                            writers.add(mn)
+                            grew = True
+                wcalls = [c for c in prog.all_calls(fi) if isinstance(c.func, ast.Attribute) and ((norm(c.func.value) in STORAGE and c.func.attr in SW) or (norm(c.func.value) == "self" and c.func.attr in writers and c.func.attr != fi.name))]
+                twice = None
+                for a_ in wcalls:
+                    after = g.reach_avoiding([g.node_of(a_)])
+                    for b_ in wcalls:
+                        if b_ is not a_ and g.node_of(b_) in after:
+                            twice = twice or (a_, b_)
+                rep.check(twice is None, rule, fi.short, "one write per operation", f"{len(wcalls)} write call(s), no two on one path", (f"`{norm(twice[0])[:50]}` and `{norm(twice[1])[:50]}` run on the same path: the wrapper performs a second write of its own (e.g. it rewrites the newest stored event when a new one is inserted), so an operation changes events it was not given" if twice else ""), fi.loc(twice[1]) if twice else fi.loc())
                 rep.check(not skipped, rule, fi.short, "reaches the storage", "every normally returning path passes through the storage call", f"{fi.short} can return normally without having called the storage (e.g. an early return for a falsy id: 0 is a valid event id in the memory store): the caller is told the operation happened, the store is unchanged", fi.loc(), found=g.describe_path(w) if w else None)
         # ---- arguments
         if "arguments" in parts:
